@@ -247,7 +247,9 @@ func VerifyFunc(p *Program, fn *ssa.Function, cfg Config, opt Options) (res *Uni
 					continue // discharged by the named lemma
 				}
 				cf := fn.Pkg.Func(cl.Func)
+				u.goalMode++
 				t := u.evalPure(st2, cf, all, nil).(*Term)
+				u.goalMode--
 				name := fmt.Sprintf("%s#post:%s", FuncName(fn), cl.Text)
 				if len(name) > 200 {
 					name = name[:200]
